@@ -104,8 +104,69 @@ def fiber_interp(pkg, gamma_class):
     else:
         ass["gamma"] = ("truth", True)
     it = Interp(pkg, assumptions=ass, param_classes={"input": "optical_signal"}, param_values=pv)
+    it.keep_cond_forms = True
     it.run(pkg.func("devices.FIBER"))
+    canonical_operator(it)
     return it, (Form.num(0) if gamma_class == "zero" else S("gamma"))
+
+
+def _valid_partial(it, dop, dop_name, alt):
+    """alt differs from the full operator only by terms that the condition guarding the full assignment makes zero"""
+    if not isinstance(alt, Form):
+        return False
+    if alt == dop:
+        return True
+    full_conds = [conds_ for f_, stmt_, name_, val_, conds_, depth_ in it.assign_log if depth_ == 0 and name_ == dop_name and isinstance(val_, Form) and val_ == dop]
+    zeros = set()
+    for src_, pol_ in (full_conds[0] if full_conds else ()):
+        if pol_:
+            zeros |= _names_zero_when_false(src_)
+    missing = dop - alt
+    return all(any(a[0] == "sym" and a[1] in zeros for a, _e in m) for m in missing.terms)
+
+
+def canonical_operator(it):
+    """a linear operator assembled conditionally (`D = -alpha/2; if beta_2 or beta_3: D = D - ...`) reaches the propagation statements as
+    a merge of the full operator and a partial one.  When every partial alternative is the full operator with terms that are zero
+    on its path (the guard says so), the merge denotes the full operator: it is replaced by it in the recorded values, so that the
+    split-step, step-accounting and single-step clauses see one operator.  A merge with an alternative that is NOT justified stays
+    as it is (and C07.3 / C08.6 report it)."""
+    dop, _stmt, dop_name = find_dop(it)
+    if not isinstance(dop, Form) or dop_name is None:
+        return
+    targets = {}
+
+    def scan(v):
+        if isinstance(v, Form):
+            for a in v.atoms():
+                if a[0] == "phi" and a[1].split("@")[0].lstrip("<") == dop_name and a not in targets:
+                    alts = list(_phi_alternatives(Form.atom(a)))
+                    targets[a] = all(_valid_partial(it, dop, dop_name, x) for x in alts)
+    for f_, stmt_, name_, val_, conds_, depth_ in it.assign_log:
+        scan(val_)
+    for env in getattr(it, "snapshots", {}).values():
+        for v in env.values():
+            scan(v)
+    good = {a for a, ok in targets.items() if ok}
+    if not good:
+        return
+    fn = lambda a: dop if a in good else None
+    it.assign_log[:] = [(f_, stmt_, name_, (val_.subst(fn) if isinstance(val_, Form) else val_), conds_, depth_) for f_, stmt_, name_, val_, conds_, depth_ in it.assign_log]
+    for stmt_, env in list(getattr(it, "snapshots", {}).items()):
+        for k_, v in list(env.items()):
+            if isinstance(v, Form):
+                env[k_] = v.subst(fn)
+    fe = getattr(it, "final_env", None)
+    if isinstance(fe, dict):
+        for k_, v in list(fe.items()):
+            if isinstance(v, Form):
+                fe[k_] = v.subst(fn)
+    for o in getattr(it, "outcomes", []):
+        from ..absint import ObjV
+        if isinstance(getattr(o, "value", None), ObjV):
+            for k_, v in list(o.value.fields.items()):
+                if isinstance(v, Form):
+                    o.value.fields[k_] = v.subst(fn)
 
 
 def rule_steps(ctx, fi, it, rule_acc="C08.1", rule_site="C08.2", dop=None, gamma=None, label=""):
@@ -392,7 +453,58 @@ def rule_dop(ctx, fi, it, rule):
         ok = abs(float(k) / 4.342944819032518 - 1) < 1e-9
         ctx.check(rule, ok, fi, dop_stmt, f"D_op loss term = {loss!r}", f"-alpha/(2*{float(k):.4f}), 10/ln10 = 4.3429",
                   f"loss term is -alpha/(2*{float(k):.7g}); the dB->neper constant must be 10/ln(10) = 4.342944819 (a rounded 4.343 leaves the output power off by 1.3e-5 per neper: 1.5e-4 after 50 dB)")
+    # ... and it is THAT operator which is applied: where the propagation statements use the variable, every value it can hold there
+    # is the full operator, or differs from it only by terms a branch condition has made zero (`if beta_2 or beta_3:` around the
+    # dispersive part is fine; `if beta_2 != 0:` around a part that also carries beta_3 drops the cubic phase of a fibre with
+    # beta_2 == 0, beta_3 != 0)
+    full_conds = [conds_ for f_, stmt_, name_, val_, conds_, depth_ in it.assign_log if depth_ == 0 and name_ == _dop_name and isinstance(val_, Form) and val_ == dop]
+    zeros = set()
+    if full_conds:
+        for src_, pol_ in full_conds[0]:
+            if pol_:
+                zeros |= _names_zero_when_false(src_)
+    seen_alt = set()
+    for stmt_, fvar_, val_, env_ in find_sites(fi, it):
+        used = env_.get(_dop_name)
+        for alt in _phi_alternatives(used):
+            if not isinstance(alt, Form) or alt == dop or repr(alt) in seen_alt:
+                continue
+            seen_alt.add(repr(alt))
+            missing = dop - alt
+            lost = [m for m in missing.terms if not any(a[0] == "sym" and a[1] in zeros for a, _e in m)]
+            ctx.check(rule, not lost, fi, stmt_, f"D_op as applied can also be {alt!r}"[:160], "differs from the full operator only by terms its branch condition makes zero",
+                      f"on a path where the propagation uses D_op = {alt!r} the terms {Form({m: missing.terms[m] for m in lost})!r} of the operator are missing although nothing makes them zero "
+                      f"(the guard only establishes {sorted(zeros) or 'nothing'} == 0): e.g. a fibre with beta_2 == 0 and beta_3 != 0 loses its cubic phase"[:700])
     return b2, dop_stmt
+
+
+def _phi_alternatives(v, depth=0):
+    a = v.single_atom() if isinstance(v, Form) else None
+    if a and a[0] == "phi" and v == Form.atom(a) and depth < 6:
+        for x in a[2]:
+            yield from _phi_alternatives(x, depth + 1)
+    else:
+        yield v
+
+
+def _names_zero_when_false(src):
+    """names that are zero whenever the condition `src` is false: the operands of an `or` of truth tests / `!= 0` comparisons"""
+    try:
+        e = ast.parse(src.split(" #")[0], mode="eval").body
+    except SyntaxError:
+        return set()
+    def one(x):
+        if isinstance(x, ast.Name):
+            return {x.id}
+        if isinstance(x, ast.Compare) and len(x.ops) == 1 and isinstance(x.ops[0], ast.NotEq) and isinstance(x.left, ast.Name) \
+                and isinstance(x.comparators[0], ast.Constant) and x.comparators[0].value == 0:
+            return {x.left.id}
+        return None
+    parts = e.values if isinstance(e, ast.BoolOp) and isinstance(e.op, ast.Or) else [e]
+    got = [one(x) for x in parts]
+    if any(g is None for g in got):
+        return set() if len(parts) > 1 and all(g is None for g in got) else set().union(*[g for g in got if g])
+    return set().union(*got)
 
 
 def rule_returned_field(ctx, fi, itn, rule):
@@ -420,8 +532,9 @@ def rule_returned_field(ctx, fi, itn, rule):
         ctx.unknown(rule, fi, fi.node, "FIBER: output field", "no propagation site / single return")
 
 
-def _at_most_length(v, length, depth=0):
-    """the value cannot exceed the fibre length: the length itself, min(.., length), or alternatives that all are"""
+def _at_most_length(v, length, depth=0, conds=()):
+    """the value cannot exceed the fibre length: the length itself, min(.., length), or alternatives that all are; `conds`: the value
+    forms of the branch conditions met on the way (an `if length < h: h = length` statement is a min written as a statement)"""
     if not isinstance(v, Form) or depth > 5:
         return False
     if v == length:
@@ -439,9 +552,13 @@ def _at_most_length(v, length, depth=0):
             # `length if length < h else h` and `h if h < length else length`: the smaller of the two, written as a conditional
             if isinstance(x, Form) and isinstance(y, Form) and ((x == small and y == big and x == length) or (x == small and y == big and y == length)):
                 return True
-        return _at_most_length(x, length, depth + 1) and _at_most_length(y, length, depth + 1)
+        return _at_most_length(x, length, depth + 1, conds) and _at_most_length(y, length, depth + 1, conds)
     if a[0] == "phi":
-        return all(_at_most_length(x, length, depth + 1) for x in a[2])
+        if len(a[2]) == 2 and conds:
+            for x, y in (a[2], a[2][::-1]):
+                if isinstance(x, Form) and x == length and isinstance(y, Form) and any(isinstance(c, Form) and (c == mk_fn("gt", [y, length]) or c == mk_fn("ge", [y, length])) for c in conds):
+                    return True            # replaced by the length exactly when it exceeded it
+        return all(_at_most_length(x, length, depth + 1, conds) for x in a[2])
     return False
 
 
@@ -458,7 +575,7 @@ def rule_first_step(ctx, fi, it):
         return
     pre = it.loop_envs[loops[0]][0]
     h0 = pre.get(hname)
-    ctx.check("C08.8", _at_most_length(h0, length), fi, loops[0], f"FIBER: step at loop entry = {h0!r}"[:200], "at most the fibre length",
+    ctx.check("C08.8", _at_most_length(h0, length, conds=tuple(getattr(it, "cond_forms", {}).values())), fi, loops[0], f"FIBER: step at loop entry = {h0!r}"[:200], "at most the fibre length",
               "the first step is the adaptive phi_max/(gamma*P_peak) with no upper limit: for a weak signal it exceeds the fibre length, the distance already covered then exceeds "
               "the length, the final 'remainder' step is negative and the field is propagated backwards through the loss (overflow: non-finite output)")
 
@@ -468,6 +585,7 @@ def run(ctx):
     fi = pkg.func("devices.FIBER")
     it = Interp(pkg, assumptions={"show_progress": False, "input.noise": "none"}, param_classes={"input": "optical_signal"})
     it.run(fi)
+    canonical_operator(it)
     itn, gform = fiber_interp(pkg, "nonzero")
     rule_steps(ctx, fi, itn, "C08.1", "C08.2", gamma=gform, label=" [gamma != 0]")
     itz, gz = fiber_interp(pkg, "zero")
@@ -478,6 +596,10 @@ def run(ctx):
     rule_returned_field(ctx, fi, itn, "C08.7")
     rule_first_step(ctx, fi, itn)
     check_late_binding(ctx, "C08.5", ["devices.FIBER"])
+    # C08.9: the energy law is stated per call: FIBER called twice with the same arguments gives the same output.  A parameter
+    # rescaled in place (alpha *= ln(10)/10 on a 0-d or one-element array the caller keeps) makes the second call a different fibre
+    from .c14 import rule_inplace
+    rule_inplace(ctx, "C08.9", ["devices.FIBER"])
     ctx.require_min("C08.8", 1)
     ctx.require_min("C08.1", 1)
     ctx.require_min("C08.2", 2)
